@@ -57,3 +57,17 @@ def abstract_command(ctx, bits, twice, response, devicetype=0, p="f"):
     it renders as text like any generic Command"""
     fr = ctx.new(F.ForwardFrame, _bits=bits, _data=ctx.int(p + "data", 0, (1 << bits) - 1), _error=False)
     return ctx.new(C.Command, _data=fr, sendtwice=twice, response=response, devicetype=devicetype), fr
+
+
+# driver objects are built by their real constructors, then put into the state a proof unit describes
+from pyvc.values import register_init_built          # noqa: E402
+from dali.driver import hid as _HID, serial as _SER    # noqa: E402
+register_init_built(_SER.DriverLubaRs232.LubaProtocol)
+register_init_built(_SER.DriverSCIRS232.SCIRS232Protocol)
+register_init_built(_SER.DistributorQueue)
+register_init_built(_SER.DriverLubaRs232, "luba232:/dev/ttyS0")
+register_init_built(_SER.DriverSCIRS232, "scirs232:/dev/ttyS0")
+register_init_built(_HID.hid, "/dev/hidraw0")
+register_init_built(_HID.tridonic, "/dev/hidraw0")
+register_init_built(_HID.hasseb, "/dev/hidraw0")
+register_init_built(_HID._callback, None)
